@@ -17,7 +17,8 @@ import vlib
 
 PKG = "pkg/station/lib"
 FILES = ["common/vcommon_test.go", "pkg_station_lib/ingest_sched_verif_test.go", "pkg_station_lib/ingest_pipeline_verif_test.go"]
-SCEN_QUICK = ["2same", "2diff", "2same_handler", "dup_sweep", "conn_sweep", "2same_sweep_handler", "3mixed", "3same_live"]
+SCEN_QUICK = ["2same", "2diff", "2same_handler", "dup_sweep", "conn_sweep", "2same_sweep_handler", "3mixed", "3same_live",
+              "reload_mixed", "reload_2workers"]
 SCEN_THOROUGH = SCEN_QUICK + ["3diff_sweep_handler", "4mixed"]
 
 
@@ -36,7 +37,7 @@ def outcome_from_serial(s):
         reg[k] = {"present": False} if "none" in r else {"present": True, "valid": r["valid"], "count": r["count"]}
     for k, t in s["tmo"].items():
         tmo[k] = {"present": False} if "none" in t else {"present": True, "used": t["used"]}
-    return {"reg": reg, "tmo": tmo, "ann": s["ann"], "upd": s["upd"], "shares": s["shares"]}
+    return {"reg": reg, "tmo": tmo, "ann": s["ann"], "upd": s["upd"], "shares": s["shares"], "cfg": s["cfg"]}
 
 
 def strip_resolved(o):
@@ -54,18 +55,24 @@ def run(ctx):
     # which locking protocol does the code follow? (observed from the gates a solo registration passes)
     pout = os.path.join(ctx.scratch, "probe.ndjson")
     ctx.go_test(PKG, FILES, "lib", "^TestVerifIngestProbe$", env={"VERIF_OUT": pout})
-    gates = ctx.read_results(pout)[0]["gates"]
+    probe = ctx.read_results(pout)[0]
+    gates = probe["gates"]
     protocol = "toctou" if "ingest.track" in gates else "atomic"
-    ctx.log("protocol observed from gates %s: %s" % (gates, protocol))
-    ctx.stage("probe", gates=gates, protocol=protocol)
+    # configuration reload: field-by-field assignments (two gates) = "as-found"; a single publication point = "snapshot"
+    rgates = probe.get("reload_gates", [])
+    reload_protocol = "as-found" if ("reload.covert" in rgates and "reload.phantom" in rgates) else "snapshot"
+    ctx.log("protocol observed from gates %s: %s; reload gates %s: %s" % (gates, protocol, rgates, reload_protocol))
+    ctx.stage("probe", gates=gates, protocol=protocol, reload_gates=rgates, reload_protocol=reload_protocol)
 
-    def cfg_for(name, proto=None, recheck=None):
+    def cfg_for(name, proto=None, recheck=None, reload=None):
         txt = open(os.path.join(sdir, name)).read()
         if proto:
             txt = txt.replace('Protocol = "atomic"', 'Protocol = "%s"' % proto)
+        if reload:
+            txt = txt.replace('ReloadProtocol = "snapshot"', 'ReloadProtocol = "%s"' % reload)
         if recheck is not None:
             txt = txt.replace("SweepRecheck = TRUE", "SweepRecheck = %s" % ("TRUE" if recheck else "FALSE"))
-        out = "x_%s_%s_%s" % (proto, recheck, name)
+        out = "x_%s_%s_%s_%s" % (proto, recheck, reload, name)
         open(os.path.join(sdir, out), "w").write(txt)
         return out
 
@@ -80,6 +87,10 @@ def run(ctx):
     r = ctx.tlc(sdir, "Ingest.tla", cfg_for("MC_Ingest_conn_sweep.cfg", recheck=False), timeout=300, workers=4, count=False)
     if r["inv"] != "Serializable":
         raise vlib.InfraError("no-recheck instance should violate Serializable, got %s" % r["inv"])
+    for rp in ("as-found", "atomic-swap"):
+        r = ctx.tlc(sdir, "Ingest.tla", cfg_for("MC_Ingest_reload_mixed.cfg", reload=rp), timeout=300, workers=4, count=False)
+        if r["inv"] != "Serializable":
+            raise vlib.InfraError("reload protocol %s should violate Serializable, got %s" % (rp, r["inv"]))
     pdir = ctx.spec_copy("Pipeline")
     r = ctx.tlc(pdir, "Pipeline.tla", "MC_Pipeline_thorough.cfg" if thorough else "MC_Pipeline.cfg", timeout=1800, workers=8)
     ctx.require_design_ok(r, "Pipeline")
@@ -97,7 +108,8 @@ def run(ctx):
     per_scen = {}
     with open(behf, "w") as fo:
         for sc in scen:
-            g = ctx.tlc(sdir, "Gen_Ingest.tla", cfg_for("Gen_Ingest_%s.cfg" % sc, proto=protocol), timeout=1800, workers=8, count=False)
+            g = ctx.tlc(sdir, "Gen_Ingest.tla", cfg_for("Gen_Ingest_%s.cfg" % sc, proto=protocol, reload=reload_protocol),
+                        timeout=1800, workers=8, count=False)
             if g["inv"]:
                 raise vlib.InfraError("generator failed for %s: %s" % (sc, g["out"][-1500:]))
             lines = open(g["beh_file"]).read().splitlines()
